@@ -76,7 +76,17 @@ ViewRawOK ==
   IN /\ Ln.k \in ClassOf3(res.k)
      /\ res.k = "ok" => Recs3(Ln.recs) = res.recs
 
+\* generate: the file did not exist; afterwards it holds the requested header and any ring the
+\* specification allows; a second run on the same path fails and leaves the bytes alone
+GenerateOKLine ==
+  LET c == CfgOf(Ln.cfg)
+  IN /\ Ln.k = "ok"
+     /\ CfgOf(Ln.hdr) = c
+     /\ GenerateOK(c, FullT(c, Ln.post), Ln.max, Ln.fill, Ln.now)
+     /\ Ln.again = "err" /\ Ln.unchanged
+
 LineOK == CASE Ln.ev = "copy" -> CopyOK
+            [] Ln.ev = "generate" -> GenerateOKLine
             [] Ln.ev = "sumcopy" -> SumCopyOK
             [] Ln.ev = "diff" -> DiffOK
             [] Ln.ev = "sumdiff" -> SumDiffOK
